@@ -363,4 +363,47 @@ def suggest (st : St) : Sugg :=
         else if last.tag = .proj then .skip
         else all
 
+/-! ### Shapes the AST constructors guarantee — and the one they do not -/
+
+/-- No `Pattern::Tuple` with an empty element list (the unit pattern `()`) in `p`. -/
+def Pat.noUnit : Pat → Bool
+  | .leaf _ _ => true
+  | .tuple _ ps => !ps.isEmpty && noUnitList ps
+  | .ctor _ _ ps => noUnitList ps
+  | .as_ _ _ p => p.noUnit
+where
+  noUnitList : List Pat → Bool
+    | [] => true
+    | p :: ps => p.noUnit && noUnitList ps
+
+mutual
+/-- Every `visit_one` node has a child (true of every AST: `App` has `func`, `IfElse` three
+    children, `Array`/`Tuple`/`Block` are guarded by `is_empty()`, lib.rs:652/698) and no
+    pattern contains the unit pattern (NOT guaranteed by the parser: grammar.lalrpop:582-587). -/
+def Expr.ok : Expr → Bool
+  | .leaf _ => true
+  | .emptyNode _ => true
+  | .error _ => true
+  | .one _ cs => !cs.isEmpty && okList cs
+  | .infix _ l _ r => l.ok && r.ok
+  | .proj _ e => e.ok
+  | .lambda _ _ b => b.ok
+  | .letb _ _ bs b => okBinds bs && b.ok
+  | .matchE _ s alts => s.ok && okAlts alts
+  | .record _ fs base => okFields fs && (match base with | none => true | some b => b.ok)
+def okList : List Expr → Bool
+  | [] => true
+  | e :: es => e.ok && okList es
+def okBinds : List LBind → Bool
+  | [] => true
+  | .mk n _ e :: bs => n.noUnit && e.ok && okBinds bs
+def okAlts : List Alt → Bool
+  | [] => true
+  | .mk p e :: as => p.noUnit && e.ok && okAlts as
+def okFields : List Field → Bool
+  | [] => true
+  | .mk _ none :: fs => okFields fs
+  | .mk _ (some e) :: fs => e.ok && okFields fs
+end
+
 end GluonModel.FindPos
